@@ -36,6 +36,8 @@ var hardDocStrings = []string{"\ufffd", "\ufffdabc", "\u007f", "\u0080", "\u07ff
 	"\\u003c", "\\u003e\\u0026", "a\\nb", "\\\\", "\\\"", "\\u0041", "&lt;&amp;", "\\x41", "%41", "\\'", "\\`", "<>&", "</script>", "\\u2028",
 	// a quote next to characters of two, three and four bytes (raw strings escape the quote: offsets counted in bytes vs runes)
 	"é'é", "''é", "𝄞'", "'\u0080", "ა'ა'", "'\uffff'",
+	// words of the library's own error messages (anything that classifies an error by its text)
+	"popularity", "wrong number of args", "invalid arity", "unknown function: x", "Invalid type for: x", "<nil>",
 	// the text of a surrogate escape (six plain characters)
 	"\\ud800", "\\udfff", "\\ud83d\\ude00", "C:\\users\\udd00\\x"}
 var hardDocNumbers = []float64{1e21, -1.5e300, 1e308, -1e308, 1.7976931348623157e308, 5e-324, 1e-7, 1.2345678901234568e-10, 6.02214076e23, 9007199254740992, 9007199254740993, 9223372036854775807, 9223372036854775808, 18446744073709551616,
